@@ -37,6 +37,22 @@ pub fn last_err() -> String {
     errno_name(std::io::Error::last_os_error().raw_os_error().unwrap_or(0))
 }
 
+/// Moves a descriptor of the harness out of the low range. The code under test may close a
+/// descriptor number it no longer owns (finding: refused WRITE); everything the harness itself keeps
+/// open lives above 1000 so that such a stray close cannot hit the shadow or the trace.
+pub fn hi(fd: i32) -> i32 {
+    if fd < 0 {
+        return fd;
+    }
+    let n = unsafe { libc::fcntl(fd, libc::F_DUPFD_CLOEXEC, 1000) };
+    if n >= 0 {
+        unsafe { libc::close(fd) };
+        n
+    } else {
+        fd
+    }
+}
+
 pub fn cstr(s: &[u8]) -> CString {
     CString::new(s.to_vec()).unwrap_or_else(|_| CString::new("NUL").unwrap())
 }
@@ -74,7 +90,7 @@ impl Ids {
             return *v;
         }
         let c = cstr(path.as_os_str().as_bytes());
-        let fd = unsafe { libc::open(c.as_ptr(), libc::O_PATH | libc::O_NOFOLLOW | libc::O_CLOEXEC) };
+        let fd = hi(unsafe { libc::open(c.as_ptr(), libc::O_PATH | libc::O_NOFOLLOW | libc::O_CLOEXEC) });
         if fd >= 0 {
             self.pins.push(fd);
         }
@@ -277,6 +293,8 @@ pub fn build(root: &Path, spec: Option<&J>) {
             write_file(&ex.join("f1"), b"abcdefgh", 0o644, 0, 0);
             write_file(&ex.join("f2"), b"", 0o600, 0, 0);
             write_file(&ex.join("f3"), b"mnopqrstuvwx", 0o666, 1000, 1000);
+            // two file-system blocks: the only file on which collapse/insert range can succeed
+            write_file(&ex.join("big"), &vec![b'B'; 8192], 0o644, 0, 0);
             mkdir(&ex.join("d1"), 0o755, 0, 0);
             write_file(&ex.join("d1/g"), b"xyz", 0o644, 0, 0);
             mkdir(&ex.join("d2"), 0o777, 0, 0);
